@@ -625,6 +625,43 @@ func tkOtherInstances(c *Ctx, kind string, v *tkVerdict) {
 		}
 		v.note("reuse", "", "")
 	}
+	// an instance configured with a narrow range inside a wide one (a non-Latin separator): what it does
+	// with one input does not depend on the characters it looked up before
+	if kind == "generic" || kind == "csv" {
+		cfg := func() *tkHarness {
+			x := c.newTkHarnessOn(m, kind)
+			if x.fault != "" {
+				return nil
+			}
+			x.setOptions(0)
+			if kind == "csv" {
+				x.call("SetFieldSeparators", mSlice{[]mv{int64('、')}})
+			} else if sym, out := x.call("SymbolState"); out.kind == "ok" {
+				x.call("SetCharacterState", int64('、'), int64('、'), sym)
+			}
+			return x
+		}
+		inputs := []string{"a、b", "漢字", "x", "、", "漢、字", "ж、ж"}
+		if fr := cfg(); fr != nil {
+			want := map[string]string{}
+			for _, s := range inputs {
+				f2 := cfg()
+				r := f2.tokenize(s)
+				want[s] = renderToks(r.toks)
+			}
+			for _, s1 := range inputs {
+				for _, s2 := range inputs {
+					fr.tokenize(s1)
+					r := fr.tokenize(s2)
+					if got := renderToks(r.toks); r.kind == "ok" && got != want[s2] {
+						v.note("reuse", fmt.Sprintf("%s tokenizer with the separator '、' configured gives [%s] on %q after %q; a freshly configured instance gives [%s]", kind, got, s2, s1, want[s2]), "")
+						return
+					}
+					v.note("reuse", "", "")
+				}
+			}
+		}
+	}
 	// an instance created afterwards starts from the same defaults
 	h2 := c.newTkHarnessOn(m, kind)
 	if h2.fault == "" {
